@@ -38,3 +38,7 @@ add("C02", "metamorphic: snapshot of every public query before/after random comp
     "Two inputs that must mean the same are parsed and every public query compared; the rewrite positions, kinds and packaging (string / file / split files, BOM, End, missing final newline, empty file) are drawn by Hypothesis.",
     "Trusted: pbt/rewrite.py (text-level rewriter, own tokeniser) and the generator's layout renderer apply only the edits C02 lists; equal snapshots on all fixtures of the unchanged tree support that.",
     "DESIGN.md 4 C02")
+add("C08", "Hypothesis rule-based state machine over query/mutate/reparse histories vs the snapshot of a fresh instance; object-disjointness invariant for derived tables",
+    "Histories of up to 30 public calls (with recursive in-place mutation of every returned structure and re-parsing) are generated and shrunk as one value; after each step every public query is compared with a freshly parsed instance; copy/conjugate tables are compared with the reference and must not share Tree/Token objects with their source.",
+    "Trusted: pbt/decref.all_tables, snapshot.py. Reads the private list _parsed_decays (never writes it) for the sharing invariant.",
+    "DESIGN.md 4 C08")
